@@ -47,13 +47,13 @@ ENGINE_MODULES = {
     "C16": ["eng_tables", "eng_collect"],
     "C17": ["eng_layout"],
     "C18": ["eng_layout"],
-    "C19": ["eng_tables"],
+    "C19": ["eng_tables", "eng_conv"],
     "C20": ["eng_tables", "eng_dynroots"],
 }
 
 
 # engines that have been delivered, reviewed and integrated (others are skipped even if present)
-READY = {"eng_brand", "eng_collect", "eng_layout", "eng_tables", "eng_dynroots"}
+READY = {"eng_brand", "eng_collect", "eng_layout", "eng_tables", "eng_dynroots", "eng_conv"}
 
 
 def _merge(a, b):
